@@ -242,9 +242,6 @@ func exec(line string) hx.Result {
 		see(graph.KneserGraph(c.arg(0), c.arg(1)))
 	case "bikneser":
 		see(graph.BipartiteKneserGraph(c.arg(0), c.arg(1)))
-	case "bikneserw": // 2k > n: GENUINE DEFECT (edgeless instead of the documented containment graph), wf only
-		wfonly = true
-		see(graph.BipartiteKneserGraph(c.arg(0), c.arg(1)))
 	case "circulant":
 		see(graph.CirculantGraph(c.arg(0), intsOf(c.toks)...))
 	case "circbip":
@@ -514,6 +511,10 @@ func gen(g *hx.Gen) {
 	emit := func(f string, a ...interface{}) { g.Emit(fmt.Sprintf(f, a...)) }
 	big := g.Thorough()
 
+	// ---- corpus: BipartiteKneserGraph(n,k) with 2k > n was edgeless before commit e9f18ed
+	emit("bikneser 3 2;")
+	emit("bikneser 3 3;")
+	emit("bikneser 4 3;")
 	// ---- the named families: every accepted parameter tuple up to small bounds
 	nmax := g.Pick(9, 14)
 	for n := 0; n <= nmax; n++ {
@@ -544,13 +545,6 @@ func gen(g *hx.Gen) {
 	}
 	for n := 0; n <= g.Pick(6, 7); n++ {
 		for k := 0; k <= n; k++ {
-			if 2*k > n {
-				// GENUINE DEFECT (notes/C06.md): BipartiteKneserGraph(n,k) with 2k > n returns the
-				// edgeless graph although its documented definition joins B to A whenever B is a
-				// subset of A.  Skipped for the definition; only well-formedness is compared.
-				emit("bikneserw %d %d;", n, k)
-				continue
-			}
 			emit("bikneser %d %d;", n, k)
 		}
 	}
